@@ -8,6 +8,11 @@ CHECKS = {
     note="Trusted: Lean kernel; axioms propext/Quot.sound; the model's fidelity beyond the compared trees (structural argument: the code is a tree recursion whose cases are all exercised by the <=6-node universe); pymbolic structural equality of conditions. Conditions are flags/negations/constants as the property says.",
     technique="Lean 4 proof (structural induction + loop invariant) over a hand-written model; exhaustive small-scope + random differential correspondence",
     ref="7/C06"),
+ "C14": dict(
+    text="Lean 4 theorems for ALL kinds (arbitrary user-type identifiers): unify is idempotent, commutative and associative wherever defined and is the least upper bound of a partial order. The real unify is tabulated over the property's 10-kind universe on every run into a generated Lean file whose equality with the model is proved by `decide`; SymbolKindFinder (work-list loop, table update, per-operator rules, built-in result kinds) is modelled and compared with the real code on random programs in several statement/phase orders; an oracle compares the real tables across 6 permutations per program.",
+    note="Order-independence of the inferred table is proved in the model only through the algebraic laws of unify/set at this commit (the chaotic-iteration theorem is planned); it is checked differentially and by the permutation oracle. Known finding: incompatible kinds keep the first one (documented print-and-ignore). pymbolic.flatten is third-party and applied on the harness side.",
+    technique="Lean 4 proof (case analysis + grind) over hand-written model; generated table checked by decide; differential correspondence + permutation oracle",
+    ref="7/C14"),
 }
 
 NOT_APPLICABLE = {}
